@@ -34,7 +34,7 @@ if [ "$tier" = thorough ] && { [ "$id" = C14 ] || [ "$id" = C19 ]; } && [ $rc -e
   (cd harness && GORACE="halt_on_error=0 exitcode=0 log_path=$V/work/race-$id" go test -race -count=6 -timeout 15m ./racewl/ > "$V/work/racewl-$id.log" 2>&1)
   rrc=$?
   nraces=$(cat work/race-$id.* 2>/dev/null | grep -c "WARNING: DATA RACE")
-  python3 - "$V/evidence/$id.json" "$rrc" "$nraces" <<'PY'
+  python3 - "${RV_EVIDENCE_DIR:-$V/evidence}/$id.json" "$rrc" "$nraces" <<'PY'
 import json, sys
 p, rrc, n = sys.argv[1], int(sys.argv[2]), int(sys.argv[3])
 try:
